@@ -29,3 +29,47 @@ def run(prog, chk):
     C.erase_then_step(prog, chk, "C02.j", [f for cls in H for fs in C.class_insts(prog, cls).values() for f in fs])
     # assignment (listed in the statement): a = a must not empty the table before reading it
     C.self_assign(prog, chk, "C02.h", ("HashMap", "HashSet"))
+    string_hash_reads_key(prog, chk, "C02.k")
+
+
+def string_hash_reads_key(prog, chk, rid):
+    """Equal keys must land in the same bucket: the hash of a String may depend on nothing but the key's bytes and length.  Evaluated
+    for key lengths 0, 1, 2 and 5: every byte of the C-string view it looks at has an index in [0, length] (the terminator included)."""
+    from .. import fin, q
+    from ..facts import AnalysisBroken
+    chk.rule(rid, "FIN/VSA: hash(const String&) evaluated for key lengths 0/1/2/5 subscripts the key's text only inside [0, length]: the "
+                  "hash of a key is a function of the key's value, whatever memory surrounds its buffer", floor=1)
+    fs = [f for f in prog.functions.values() if f.name == "hash" and f.blocks and len(f.params) == 1 and "String" in f.params[0]["t"]]
+    if not fs:
+        raise AnalysisBroken("hash(const String&) not found")
+    f = fs[0]
+    where = "%s:%s" % (f.file, f.line)
+    subs = [i for i, n in enumerate(f.nodes) if n["k"] == "ArraySubscriptExpr" and f.node_pos(i) is not None]
+    lens = set(fin.key(f, c) for c in q.calls(f) if (f.nodes[c].get("callee") or "") == "String::length")
+    if not subs or not lens:
+        raise AnalysisBroken("hash(const String&): no subscript of the key text / no length() call found")
+    bad = None
+    n_ev = 0
+    for L in (0, 1, 2, 5):
+        hits = []
+
+        def trace(e, v_, _h=hits):
+            if e in subs:
+                _h.append((e, fin.eval_expr(f, f.nodes[e]["c"][1], v_)))
+        seen, end, fv = fin.walk_vals(f, f.entry, {k_: L for k_ in lens}, limit=300, trace=trace)
+        n_ev += 1
+        if isinstance(end, str):
+            bad = (L, None, "the walk ends with `%s`" % end)
+            break
+        for e, v in hits:
+            if v is None or v < 0 or v > L or v >= 2 ** 63:
+                bad = (L, e, "`%s` is evaluated with the subscript %s" % (q.no_casts(f.r(e))[:40], "undetermined" if v is None else (v - 2 ** 64 if v >= 2 ** 63 else v)))
+                break
+        if bad:
+            break
+    if bad:
+        chk.bad(rid, f, "hash-reads-outside-key", f.where(bad[1]) if bad[1] is not None else where,
+                "for a key of %d byte(s) %s: a byte that is not part of the key decides the bucket - two equal (empty) keys held in different "
+                "buffers hash differently, find() misses a key that is present and insert() stores it twice" % (bad[0], bad[2]), evals=n_ev)
+    else:
+        chk.ok(rid, f, "%d subscripts stay inside [0, length] for key lengths 0, 1, 2, 5" % len(subs), where, "evaluation of the index expressions", evals=n_ev)
